@@ -816,7 +816,14 @@ func (n *IncludeNode) Render(w io.Writer, ctx *RenderContext) error {
 
 	// Need a new context for 'only' mode, sandboxed mode, or with variables
 	includeCtx := ctx
-	if n.only || n.sandboxed {
+	if !n.only && !n.sandboxed {
+		// Variables passed with 'with' (and everything the included template
+		// assigns) belong to the included template only: it gets a child
+		// context that reads through to the including template's variables
+		includeCtx = ctx.Clone()
+		includeCtx.lastLoadedTemplate = template
+		defer includeCtx.Release()
+	} else {
 		var contextVars map[string]interface{}
 
 		if n.only {
